@@ -881,7 +881,9 @@ func (m *Dense) RankOne(a Matrix, alpha float64, x, y Vector) {
 func (m *Dense) Outer(alpha float64, x, y Vector) {
 	r, c := x.Len(), y.Len()
 
-	m.reuseAsZeroed(r, c)
+	// Every element is set below: do not zero the
+	// receiver before the overlap checks.
+	m.reuseAsNonZeroed(r, c)
 
 	var xmat, ymat blas64.Vector
 	fast := true
